@@ -177,6 +177,7 @@ def evaluate(ctx, s, am, ph, case, nontriv, desc, T=None, big=False):
     # effective energies of both networks, auxiliary units traced / given (all (sigma, a) combinations)
     VVn, AAn, VV, AA = T["VVn"], T["AAn"], T["VV"], T["AA"]
     E_joint, E_small = {}, {}
+    returned = list(out)                                # every tensor the library handed back (scribbled over further down)
     for name, rb, pr in (("rbm_am", rb_am, am), ("rbm_ph", rb_ph, ph)):
         ok, ee = ctx.call(name + ".effective_energy", case, lambda: (rb.effective_energy(space), rb.effective_energy(VV, AA)))
         if ok:
@@ -184,9 +185,10 @@ def evaluate(ctx, s, am, ph, case, nontriv, desc, T=None, big=False):
             ctx.agree(name + ".effective_energy(v)", ee[0], mE, case)
             ctx.agree(name + ".effective_energy(v, a)", ee[1], mEa, case)
             if list(ee[1].shape) == [N * len(A)]:
-                E_joint[name] = ee[1].numpy().reshape(N, len(A))
+                E_joint[name] = ee[1].numpy().reshape(N, len(A)).copy()
             if list(ee[0].shape) == [N]:
-                E_small[name] = ee[0].numpy()
+                E_small[name] = ee[0].numpy().copy()
+            returned.extend(ee)
 
     # 1-D single-element call forms
     if N <= 4:
@@ -227,7 +229,7 @@ def evaluate(ctx, s, am, ph, case, nontriv, desc, T=None, big=False):
                   [mR[i0, i0, 0] / amp[i0, i0], mR[i0, i0, 1] / amp[i0, i0]], case, rtol=0, atol=1e-7, scale=1.0)
 
     # ---------------- property oracle on the implementation's own outputs
-    prob_n = prob.numpy()
+    prob_n = prob.numpy().copy()
     tr = float(np.real(np.trace(Rc)))
     nrm = float(np.linalg.norm(Rc))
     herm = float(np.linalg.norm(Rc - Rc.conj().T))
@@ -292,6 +294,15 @@ def evaluate(ctx, s, am, ph, case, nontriv, desc, T=None, big=False):
     batch_mutated_in_place(ctx, res, case, arng)
     if big:
         large_batches(ctx, res, case, arng)
+    # the caller overwrites IN PLACE every tensor the library returned so far (they are the caller's): a result the library
+    # kept by reference and hands out again would now be garbage
+    with torch.no_grad():
+        for t in returned:
+            try:
+                t.mul_(0.0).add_(7.0)
+            except Exception:
+                ctx.count("returned_tensor_not_writable")
+    ctx.count("returned_tensors_overwritten_before_the_repeated_call")
     # last touch: the shared tensor objects are evaluated once more, (i) a repeated call must reproduce the verified values
     # and (ii) whatever a single-entry cache holds when the parameters are rewritten next is keyed on these objects
     ok, again = ctx.call("repeated evaluation", case, lambda: (
@@ -349,8 +360,21 @@ def batch_mutated_in_place(ctx, res, case, arng):
     """The same batch tensor object is evaluated, permuted IN PLACE (once through copy_, once through .data.copy_, which
     does not advance the tensor's version counter) and evaluated again: the results must follow the new rows."""
     s, T, N, Rc, prob, Zf, tolm = res["s"], res["T"], res["N"], res["Rc"], res["prob"], res["Z"], res["tolm"]
-    b = T["mutable"]
-    b.copy_(T["space"])
+    T["mutable"].copy_(T["space"])
+    bufs = [("caller's tensor", T["mutable"])]
+    # the same with a tensor the library RETURNED (the space from generate_hilbert_space): it is the caller's to edit
+    ok, lib = ctx.call("generate_hilbert_space()", case, lambda: s.generate_hilbert_space())
+    if ok and list(lib.shape) == list(T["space"].shape) and bool((lib == T["space"]).all()):
+        bufs.append(("tensor returned by generate_hilbert_space()", lib))
+    elif ok:
+        ctx.count("library_space_differs_from_the_enumeration")   # not this property's subject
+    for which, b in bufs:
+        batch_permuted(ctx, res, case, arng, which, b)
+    ctx.count("batch_permuted_in_place")
+
+
+def batch_permuted(ctx, res, case, arng, which, b):
+    s, T, N, Rc, prob, Zf, tolm = res["s"], res["T"], res["N"], res["Rc"], res["prob"], res["Z"], res["tolm"]
     cur = np.arange(N)
 
     def calls():
@@ -372,7 +396,7 @@ def batch_mutated_in_place(ctx, res, case, arng):
         if not ok:
             return
         p, rd, rm, rdef, z, e = out
-        det = {"in_place_write": how, "rows_now": cur.tolist()}
+        det = {"batch": which, "in_place_write": how, "rows_now": cur.tolist()}
         if list(p.shape) == [N]:
             ctx.require("probability(batch) after the batch tensor was permuted in place == probability of its current rows",
                         bool(np.allclose(p.numpy(), prob[cur], rtol=1e-9, atol=0)), case, dict(det, got=p.numpy().tolist(), want=prob[cur].tolist()))
@@ -389,7 +413,6 @@ def batch_mutated_in_place(ctx, res, case, arng):
         if "rbm_am" in res["E_small"] and list(e.shape) == [N]:
             ctx.require("effective_energy(batch) after the batch tensor was permuted in place == energies of its current rows",
                         bool(np.allclose(e.numpy(), res["E_small"]["rbm_am"][cur], rtol=1e-9, atol=1e-12)), case, det)
-    ctx.count("batch_permuted_in_place")
 
 
 BIG_SIZES = [65537, 70001, (1 << 17) + 3]
@@ -478,18 +501,49 @@ REGIMES_THOROUGH = ["default", "large_bias", "branch", "default"]
 
 WAYS = ["data_assign", "data_copy_", "load_state_dict", "vector_to_parameters"]
 PNAMES = ["weights_W", "weights_U", "visible_bias", "hidden_bias", "aux_bias"]
+NETS = ["rbm_am", "rbm_ph"]
+# torch-level writes of (a subset of) the parameters of a live network: the values the harness wrote ARE the current values
+TORCH_WAYS = ["init", "data_assign", "data_copy_", "load_state_dict", "vector_to_parameters", "no_grad_copy_", "rebind_parameter"]
+# mutations the library offers or tolerates that go through library code / other objects; the current parameters are read
+# back from the public attributes of the object afterwards
+LIB_WAYS = ["constructed", "replace_network", "state_load_file", "state_load_buffer", "optimizer_step", "deepcopy_continue",
+            "reinitialize_parameters", "initialize_parameters", "fit"]
+# (net, parameter) pairs a partial step may touch on its own; the phase net's auxiliary bias keeps its documented value 0
+SINGLES = [(n, k) for n in NETS for k in PNAMES if not (n == "rbm_ph" and k == "aux_bias")]
+BIASES = [(n, k) for (n, k) in SINGLES if k.endswith("bias")]
 
 
-def write_params(rbm, pr, way):
-    """(Re)write all parameters of one PurificationRBM of a live object in one of the ways a user can."""
+def tt(x):
     import torch
-    named = {k: torch.tensor(np.asarray(x, dtype=float), dtype=torch.double) for k, x in zip(PNAMES, pr)}
+    return torch.tensor(np.asarray(x, dtype=float), dtype=torch.double)
+
+
+def read_params(rbm):
+    """The CURRENT parameters of a network as its public attributes report them."""
+    return tuple(getattr(rbm, k).detach().cpu().numpy().astype(float).copy() for k in PNAMES)
+
+
+def write_some(rbm, named, way):
+    """(Re)write the parameters in named = {pname: array} (all five or a subset) of one live PurificationRBM in one of the
+    ways a user can; the other parameters keep their objects and values."""
+    import torch
+    from torch import nn
+    named = {k: tt(x) for k, x in named.items()}
+    if not named:
+        return
     if way in ("init", "data_assign"):
         for k, t in named.items():
             getattr(rbm, k).data = t
     elif way == "data_copy_":
         for k, t in named.items():
             getattr(rbm, k).data.copy_(t)
+    elif way == "no_grad_copy_":
+        with torch.no_grad():
+            for k, t in named.items():
+                getattr(rbm, k).copy_(t)
+    elif way == "rebind_parameter":                       # rbm.weights_U = nn.Parameter(...): a NEW Parameter object
+        for k, t in named.items():
+            setattr(rbm, k, nn.Parameter(t, requires_grad=False))
     elif way == "load_state_dict":
         sd = rbm.state_dict()
         for k in sd:
@@ -497,43 +551,311 @@ def write_params(rbm, pr, way):
                 sd[k] = named[k]
         rbm.load_state_dict(sd)
     elif way == "vector_to_parameters":
-        vec = torch.cat([named[k].reshape(-1) for k, _ in rbm.named_parameters()])
+        vec = torch.cat([(named[k] if k in named else p.detach().clone()).reshape(-1) for k, p in rbm.named_parameters()])
         torch.nn.utils.vector_to_parameters(vec, rbm.parameters())
     else:
         raise ValueError(way)
 
 
-def run_history(ctx, nv, nh, na, steps, big_steps=(), zero_bias=False):
-    """steps: list of dicts {way, regime, am, ph[, aux_seed]}.  ONE DensityMatrix object and ONE set of batch tensors;
-    after every (re)write of both networks' parameters everything is evaluated again."""
+def write_params(rbm, pr, way):
+    write_some(rbm, dict(zip(PNAMES, pr)), way)
+
+
+def step_writes(st):
+    """{net: {pname: array}} — the parameter values a step writes (full lists under 'am'/'ph', subsets under 'write')."""
+    w = {}
+    for net, key in zip(NETS, ("am", "ph")):
+        d = {}
+        if st.get(key) is not None:
+            d.update({k: np.asarray(x, dtype=float) for k, x in zip(PNAMES, st[key])})
+        for k, x in ((st.get("write") or {}).get(net) or {}).items():
+            d[k] = np.asarray(x, dtype=float)
+        w[net] = d
+    return w
+
+
+def fit_data(nv, seed):
+    """A tiny tomography data set: 0/1 samples with measurement bases, half of the rows in the reference basis."""
+    import torch
+    r = np.random.default_rng(int(seed))
+    n = 8
+    data = r.integers(0, 2, size=(n, nv)).astype(float)
+    bases = r.choice(["X", "Y", "Z"], size=(n, nv))
+    bases[: n // 2] = "Z"
+    return torch.tensor(data, dtype=torch.double), bases
+
+
+def apply_step(ctx, s, st, nv, nh, na):
+    """Applies the mutation of one history step to the live object.  Returns (object to continue with, the object left
+    behind by deepcopy_continue or None, False if the mutation could not be applied)."""
+    import torch, copy, io, os
     from qucumber.nn_states import DensityMatrix
+    from qucumber.rbm import PurificationRBM
+    way, opts, W = st["way"], st.get("opts") or {}, step_writes(st)
+    if st.get("torch_seed") is not None:
+        torch.manual_seed(int(st["torch_seed"]))
+    left = None
+    if way == "constructed":                              # the parameters the constructor drew, no write at all
+        pass
+    elif way in TORCH_WAYS:
+        for net in NETS:
+            write_some(getattr(s, net), W[net], way)
+    elif way == "replace_network":                        # state.rbm_am = <another PurificationRBM> through the property setter
+        for net in NETS:
+            if W[net] or net in (opts.get("nets") or []):
+                cur, new = getattr(s, net), PurificationRBM(nv, nh, na, gpu=False)
+                for k in PNAMES:
+                    getattr(new, k).data = tt(W[net][k]) if k in W[net] else getattr(cur, k).detach().clone()
+                setattr(s, net, new)
+    elif way in ("state_load_file", "state_load_buffer"):  # donor.save(location); state.load(location)
+        donor = DensityMatrix(nv, nh, na, gpu=False)
+        for net in NETS:
+            cur, dn = getattr(s, net), getattr(donor, net)
+            for k in PNAMES:
+                getattr(dn, k).data = tt(W[net][k]) if k in W[net] else getattr(cur, k).detach().clone()
+        if way == "state_load_file":
+            path = os.path.join(ctx.scratch, "c02_donor_%d.pt" % ctx.evaluations)
+            donor.save(path)
+            s.load(path)
+            os.remove(path)
+        else:
+            buf = io.BytesIO()
+            donor.save(buf)
+            buf.seek(0)
+            s.load(buf)
+    elif way == "optimizer_step":                         # what fit does per batch: p.grad = ..., optimizer.step()
+        lr = float(opts.get("lr", 0.5))
+        params = [p for net in NETS for p in getattr(s, net).parameters()]
+        opt = (torch.optim.Adam if opts.get("optimizer") == "Adam" else torch.optim.SGD)(params, lr=lr)
+        opt.zero_grad()
+        for net in NETS:
+            for k, x in W[net].items():
+                p = getattr(getattr(s, net), k)
+                p.grad = ((p.detach() - tt(x)) / lr).clone()
+        opt.step()
+        for p in params:
+            p.grad = None
+    elif way == "deepcopy_continue":                      # the history goes on with copy.deepcopy(state); the original stays
+        left, s = s, copy.deepcopy(s)
+        for net in NETS:
+            write_some(getattr(s, net), W[net], "data_copy_")
+    elif way == "reinitialize_parameters":
+        s.reinitialize_parameters()
+    elif way == "initialize_parameters":                  # the networks' own public method, on one network or on both
+        for net in (opts.get("nets") or NETS):
+            getattr(s, net).initialize_parameters(zero_weights=bool(opts.get("zero_weights", False)))
+    elif way == "fit":
+        data, bases = fit_data(nv, opts.get("data_seed", 0))
+        try:
+            s.fit(data, epochs=int(opts.get("epochs", 2)), pos_batch_size=4, neg_batch_size=4, k=1, lr=float(opts.get("lr", 0.05)),
+                  input_bases=bases, progbar=False)
+        except Exception:                                 # training itself is not this property's subject
+            ctx.count("mutation_unavailable:fit")
+            return s, None, False
+    else:
+        raise ValueError(way)
+    return s, left, True
+
+
+def run_history(ctx, nv, nh, na, steps, big_steps=(), zero_bias=False, ctor_seed=None):
+    """steps: list of dicts {way, regime[, am, ph | write][, opts, torch_seed, aux_seed]}.  ONE DensityMatrix object (unless a
+    step replaces it by its deep copy) and ONE set of batch tensors; after every mutation everything is evaluated again
+    against the oracle computed from the CURRENT parameters: the values the harness wrote for torch-level writes, the
+    values read back from the networks' public attributes for mutations that go through library code."""
+    import torch
+    from qucumber.nn_states import DensityMatrix
+    ctor_seed = int(ctx.rng.integers(0, 2 ** 31 - 1)) if ctor_seed is None else int(ctor_seed)
+    torch.manual_seed(ctor_seed)
     s = DensityMatrix(nv, nh, na, gpu=False)
     T = make_tensors(nv, na)
     hist = []
+    cur = None
+    last = None
     for k, st in enumerate(steps):
-        am = tuple(np.asarray(x, dtype=float) for x in st["am"])
-        ph = tuple(np.asarray(x, dtype=float) for x in st["ph"])
-        write_params(s.rbm_am, am, st["way"])
-        write_params(s.rbm_ph, ph, st["way"])
-        hist.append({"way": st["way"], "regime": st.get("regime"), "am": gen.plist(*am), "ph": gen.plist(*ph)})
+        st = dict(st)
+        way = st["way"]
+        if way not in TORCH_WAYS and st.get("torch_seed") is None:
+            st["torch_seed"] = int(ctx.rng.integers(0, 2 ** 31 - 1))
+        rec = {key: (gen.plist(*st[key]) if key in ("am", "ph") else st[key]) for key in ("way", "regime", "am", "ph", "opts", "torch_seed")
+               if st.get(key) is not None}
+        if st.get("write"):
+            rec["write"] = {net: {kk: np.asarray(x).tolist() for kk, x in d.items()} for net, d in st["write"].items()}
+        ok, out = ctx.call("parameter mutation '%s' on a live DensityMatrix" % way,
+                           {"nv": nv, "nh": nh, "na": na, "step": k, "rewritten_by": way, "ctor_seed": ctor_seed,
+                            "history": [dict(h) for h in hist] + [rec]},
+                           apply_step, ctx, s, st, nv, nh, na)
+        if not ok:
+            return
+        s, left, applied = out
+        if not applied:
+            continue
+        W = step_writes(st)
+        if way in TORCH_WAYS and (cur is not None or all(len(W[n]) == len(PNAMES) for n in NETS)):
+            cur = {n: dict((cur or {}).get(n, {}), **W[n]) for n in NETS}          # the values the harness wrote
+        else:
+            cur = {n: dict(zip(PNAMES, read_params(getattr(s, n)))) for n in NETS}  # read back from the public attributes
+        am = tuple(np.asarray(cur["rbm_am"][p], dtype=float) for p in PNAMES)
+        ph = tuple(np.asarray(cur["rbm_ph"][p], dtype=float) for p in PNAMES)
+        if not all(bool(np.all(np.isfinite(x))) for x in am + ph):
+            ctx.count("skipped_nonfinite_parameters")
+            return
+        rec["am_now"], rec["ph_now"] = gen.plist(*am), gen.plist(*ph)
+        hist.append(rec)
         case = {"regime": st.get("regime"), "nv": nv, "nh": nh, "na": na, "am": gen.plist(*am), "ph": gen.plist(*ph),
-                "step": k, "rewritten_by": st["way"], "history": [dict(h) for h in hist], "big": k in big_steps}
+                "step": k, "rewritten_by": way, "ctor_seed": ctor_seed, "history": [dict(h) for h in hist], "big": k in big_steps}
+        if st.get("targets"):
+            case["targets"] = rec["targets"] = [list(t) for t in st["targets"]]
         if "aux_seed" in st:
             case["aux_seed"] = st["aux_seed"]
-        nontriv = (not zero_bias) and all(bool(np.all(x != 0)) for x in (am[2], am[3], am[4], ph[2], ph[3])) and bool(np.any(ph[1] != 0))
-        desc = {"nv": nv, "nh": nh, "na": na, "step": k, "way": st["way"], "U_am00": float(am[1][0, 0]), "d_am0": float(am[4][0]),
+        all_bias = all(bool(np.all(x != 0)) for x in (am[2], am[3], am[4], ph[2], ph[3]))
+        nontriv = (not zero_bias) and all_bias and bool(np.any(ph[1] != 0))
+        desc = {"nv": nv, "nh": nh, "na": na, "step": k, "way": way, "U_am00": float(am[1][0, 0]), "d_am0": float(am[4][0]),
                 "U_ph00": float(ph[1][0, 0]), "b_ph0": float(ph[2][0])}
         if nontriv:
             ctx.count("all_biases_nonzero")
-        ctx.count("regime:" + ("zero_bias" if zero_bias else str(st.get("regime"))))
+        ctx.count("regime:" + ("zero_bias" if (zero_bias or not all_bias) else str(st.get("regime"))))
         if k > 0:
-            ctx.count("rewrite:" + st["way"])
-        evaluate(ctx, s, am, ph, case, nontriv, desc, T=T, big=(k in big_steps))
+            ctx.count("rewrite:" + way + (":subset" if st.get("targets") else ""))
+        res = evaluate(ctx, s, am, ph, case, nontriv, desc, T=T, big=(k in big_steps))
         hist[-1]["aux_seed"] = case.get("aux_seed")
+        if left is not None and last is not None:
+            original_unaffected(ctx, left, last, case)
+        last = res
+
+
+def original_unaffected(ctx, left, last, case):
+    """After the history moved on to a deep copy whose parameters were rewritten: the object left behind still has its own
+    parameters, so its rho / probability / normalization are the values verified for it before."""
+    space, N = last["T"]["space"], last["N"]
+    ok, out = ctx.call("evaluation of the original after its deep copy was rewritten", case, lambda: (
+        left.rho(space, space), left.probability(space), left.normalization(space)))
+    if not ok:
+        return
+    good = (list(out[0].shape) == [2, N, N] and bool(np.all(np.abs(cnp(out[0]) - last["Rc"]) <= last["tolm"]))
+            and list(out[1].shape) == [N] and bool(np.allclose(out[1].numpy(), last["prob"], rtol=1e-9, atol=0))
+            and math.isclose(float(out[2]), last["Z"], rel_tol=1e-9))
+    ctx.require("rho / probability / normalization of a state are unchanged by rewriting the parameters of its deep copy", good, case,
+                {"normalization": [float(out[2]), last["Z"]]})
+
+
+def draw_subset(ctx, nv, nh, na, targets, regime="default"):
+    """New values for the (net, parameter) pairs in targets, taken from a full draw of the given regime."""
+    am, ph = draw_params(ctx, nv, nh, na, regime)
+    full = {"rbm_am": dict(zip(PNAMES, am)), "rbm_ph": dict(zip(PNAMES, ph))}
+    w = {}
+    for net, k in targets:
+        w.setdefault(net, {})[k] = full[net][k]
+    return w
+
+
+def partial_step(ctx, nv, nh, na, targets, how, regime="default"):
+    return {"way": how, "regime": regime, "write": draw_subset(ctx, nv, nh, na, targets, regime), "targets": [list(t) for t in targets]}
+
+
+def full_step(ctx, nv, nh, na, way, regime=None, opts=None):
+    regime = regime or REGIMES_QUICK[int(ctx.rng.integers(0, len(REGIMES_QUICK)))]
+    am, ph = draw_params(ctx, nv, nh, na, regime)
+    st = {"way": way, "regime": regime, "am": am, "ph": ph}
+    if opts:
+        st["opts"] = opts
+    return st
+
+
+def lib_step(way, **opts):
+    st = {"way": way, "regime": "library_drawn"}
+    if opts:
+        st["opts"] = opts
+    return st
+
+
+# every mutation operator as a (name, builder of the steps it contributes) pair; operators that let the library draw the
+# parameters (all biases 0 afterwards) are followed by an in-place write of the biases alone, so that the non-zero-bias regime
+# of the quantifier is reached with the library-drawn weights still in place
+def op_steps(ctx, nv, nh, na, op):
+    hows = ["data_copy_", "no_grad_copy_", "data_assign", "rebind_parameter", "load_state_dict", "vector_to_parameters"]
+    how = hows[int(ctx.rng.integers(0, len(hows)))]
+    if op in WAYS or op in ("no_grad_copy_", "rebind_parameter", "replace_network", "state_load_file", "state_load_buffer",
+                            "deepcopy_continue"):
+        return [full_step(ctx, nv, nh, na, op)]
+    if op == "optimizer_step":
+        return [full_step(ctx, nv, nh, na, op, regime="default", opts={"lr": float(ctx.rng.choice([0.1, 0.5, 1.0])),
+                                                                       "optimizer": str(ctx.rng.choice(["SGD", "SGD", "Adam"]))})]
+    if op == "reinitialize_parameters":
+        return [lib_step(op), partial_step(ctx, nv, nh, na, BIASES, how)]
+    if op in ("initialize_am", "initialize_ph", "initialize_both"):
+        nets = {"initialize_am": ["rbm_am"], "initialize_ph": ["rbm_ph"], "initialize_both": list(NETS)}[op]
+        return [lib_step("initialize_parameters", nets=nets, zero_weights=bool(op == "initialize_both" and ctx.rng.random() < 0.3)),
+                partial_step(ctx, nv, nh, na, [t for t in BIASES if t[0] in nets], how)]
+    if op == "fit":
+        return [full_step(ctx, nv, nh, na, "data_copy_", regime="default"),
+                lib_step("fit", data_seed=int(ctx.rng.integers(0, 2 ** 31 - 1)), epochs=2, lr=0.05)]
+    if op == "single_parameter":                          # one parameter of one network changes, everything else stays
+        t = SINGLES[int(ctx.rng.integers(0, len(SINGLES)))]
+        return [partial_step(ctx, nv, nh, na, [t], how)]
+    if op == "one_network":                               # all parameters of one network change, the other network stays
+        net = NETS[int(ctx.rng.integers(0, 2))]
+        hw = ["replace_network", "rebind_parameter", "data_copy_", "state_load_buffer"][int(ctx.rng.integers(0, 4))]
+        return [partial_step(ctx, nv, nh, na, [t for t in SINGLES if t[0] == net], hw)]
+    raise ValueError(op)
+
+
+NEW_OPS = ["reinitialize_parameters", "rebind_parameter", "replace_network", "initialize_am", "single_parameter", "state_load_file",
+           "initialize_ph", "optimizer_step", "one_network", "no_grad_copy_", "deepcopy_continue", "initialize_both",
+           "state_load_buffer", "single_parameter", "fit"]
+ALL_OPS = WAYS + NEW_OPS
+
+
+def fixed_histories(ctx):
+    """Same-object histories that always run first: every mutation operator at least once, each parameter of each network
+    changed on its own at least once (by rotating ways of writing), library-drawn parameters followed by in-place writes."""
+    # A: the library draws the parameters (constructor, reinitialize_parameters, initialize_parameters of one network),
+    #    parameters are rebound to new nn.Parameter objects, whole networks are replaced through the setters
+    nv, nh, na = 2, 2, 2
+    run_history(ctx, nv, nh, na, [
+        lib_step("constructed"),
+        full_step(ctx, nv, nh, na, "data_copy_", "default"),
+        lib_step("reinitialize_parameters"),
+        partial_step(ctx, nv, nh, na, BIASES, "data_copy_"),
+        full_step(ctx, nv, nh, na, "rebind_parameter", "default"),
+        partial_step(ctx, nv, nh, na, [("rbm_am", "aux_bias")], "rebind_parameter"),
+        partial_step(ctx, nv, nh, na, [("rbm_ph", "weights_U")], "rebind_parameter"),
+        partial_step(ctx, nv, nh, na, [("rbm_am", "weights_U")], "rebind_parameter", "branch"),
+        full_step(ctx, nv, nh, na, "replace_network", "large_bias"),
+        partial_step(ctx, nv, nh, na, [t for t in SINGLES if t[0] == "rbm_ph"], "replace_network"),
+        partial_step(ctx, nv, nh, na, [t for t in SINGLES if t[0] == "rbm_am"], "replace_network"),
+        lib_step("initialize_parameters", nets=["rbm_am"]),
+        partial_step(ctx, nv, nh, na, [t for t in BIASES if t[0] == "rbm_am"], "no_grad_copy_"),
+        lib_step("initialize_parameters", nets=["rbm_ph"]),
+        partial_step(ctx, nv, nh, na, [t for t in BIASES if t[0] == "rbm_ph"], "data_assign"),
+    ])
+    # B: load from a file / a buffer, optimizer steps, a short fit, copy_ under no_grad, continuing on a deep copy
+    nv, nh, na = 3, 2, 2
+    run_history(ctx, nv, nh, na, [
+        full_step(ctx, nv, nh, na, "init", "default"),
+        full_step(ctx, nv, nh, na, "state_load_file", "large_bias"),
+        full_step(ctx, nv, nh, na, "optimizer_step", "default", opts={"lr": 0.5}),
+        partial_step(ctx, nv, nh, na, [("rbm_am", "aux_bias"), ("rbm_ph", "weights_U")], "optimizer_step"),
+        full_step(ctx, nv, nh, na, "no_grad_copy_", "branch"),
+        full_step(ctx, nv, nh, na, "deepcopy_continue", "default"),
+        lib_step("fit", data_seed=int(ctx.rng.integers(0, 2 ** 31 - 1)), epochs=2, lr=0.05),
+        full_step(ctx, nv, nh, na, "state_load_buffer", "default"),
+        lib_step("initialize_parameters", nets=list(NETS), zero_weights=True),
+        partial_step(ctx, nv, nh, na, SINGLES, "load_state_dict"),
+        lib_step("reinitialize_parameters"),
+        partial_step(ctx, nv, nh, na, SINGLES, "vector_to_parameters", "large_bias"),
+    ])
+    # C: each parameter of each network changed ALONE between two evaluations, by rotating ways of writing it
+    nv, nh, na = 2, 1, 2
+    hows = ["data_copy_", "rebind_parameter", "data_assign", "no_grad_copy_", "load_state_dict", "vector_to_parameters",
+            "optimizer_step", "state_load_buffer", "replace_network"]
+    r0 = int(ctx.rng.integers(0, len(hows)))
+    run_history(ctx, nv, nh, na, [full_step(ctx, nv, nh, na, "init", "default")] +
+                [partial_step(ctx, nv, nh, na, [t], hows[(r0 + i) % len(hows)]) for i, t in enumerate(SINGLES)])
 
 
 def one_case(ctx, nv, nh, na, zero_bias=False, regime="default", ways=(), big=False):
-    """A fresh object, parameters written once (step 0), then one re-write + full re-evaluation per entry of ways."""
+    """A fresh object, parameters written once (step 0), then the steps of one mutation operator + full re-evaluation per
+    entry of ways."""
     if zero_bias:                                       # fresh-initialisation regime of the test-suite
         am = (gen.rand_values(ctx, (nh, nv)), gen.rand_values(ctx, (na, nv)), np.zeros(nv), np.zeros(nh), np.zeros(na))
         ph = (gen.rand_values(ctx, (nh, nv)), gen.rand_values(ctx, (na, nv)), np.zeros(nv), np.zeros(nh), np.zeros(na))
@@ -541,25 +863,27 @@ def one_case(ctx, nv, nh, na, zero_bias=False, regime="default", ways=(), big=Fa
         am, ph = draw_params(ctx, nv, nh, na, regime)
     steps = [{"way": "init", "regime": regime, "am": am, "ph": ph}]
     for w in ways:
-        reg = REGIMES_QUICK[int(ctx.rng.integers(0, len(REGIMES_QUICK)))]
-        am2, ph2 = draw_params(ctx, nv, nh, na, reg)
-        steps.append({"way": w, "regime": reg, "am": am2, "ph": ph2})
+        steps.extend(op_steps(ctx, nv, nh, na, w))
     run_history(ctx, nv, nh, na, steps, big_steps=((0, len(steps) - 1) if big else ()), zero_bias=zero_bias)
 
 
 def run(ctx):
-    # fixed cases that always run first: same-object histories with all four ways of rewriting the parameters and
-    # batches of more than 65536 rows
+    # fixed cases that always run first: same-object histories with every mutation operator, then all four in-place ways of
+    # rewriting the parameters with batches of more than 65536 rows
+    fixed_histories(ctx)
     for (nv, nh, na) in [(2, 2, 2), (1, 1, 1), (3, 2, 1)]:
-        ctx.torch_seed()
         one_case(ctx, nv, nh, na, ways=WAYS, big=True)
     draws = 20 if ctx.thorough else 6
     k = 0
     for (nv, nh, na) in shapes(ctx):
         for d in range(draws):
-            ctx.torch_seed()
             regs = REGIMES_THOROUGH if ctx.thorough else REGIMES_QUICK
-            ways = [WAYS[(k + t) % len(WAYS)] for t in range(2)] if d % 3 == 1 else ()
+            if d % 3 == 1:
+                ways = [ALL_OPS[(k // 3 + t * 7) % len(ALL_OPS)] for t in range(2)]
+            elif d % 3 == 2:
+                ways = [NEW_OPS[(k // 3) % len(NEW_OPS)]]
+            else:
+                ways = ()
             one_case(ctx, nv, nh, na, regime=regs[d % len(regs)], ways=ways, big=(d % 6 == 4))
             k += 1
     one_case(ctx, 2, 2, 2, zero_bias=True)
@@ -573,7 +897,7 @@ def search(ctx, broken, budget):
     n0 = len(ctx.failures)
     for rnd in range(6):
         for (nv, nh, na) in [(a, b, c) for a in range(1, 4) for b in range(1, 4) for c in range(1, 4)]:
-            one_case(ctx, nv, nh, na, regime=REGIMES_QUICK[rnd % len(REGIMES_QUICK)], ways=[WAYS[(rnd + nv + nh + na) % len(WAYS)]], big=(rnd == 0))
+            one_case(ctx, nv, nh, na, regime=REGIMES_QUICK[rnd % len(REGIMES_QUICK)], ways=[ALL_OPS[(rnd * 5 + nv + 3 * nh + 9 * na) % len(ALL_OPS)]], big=(rnd == 0))
             if len(ctx.failures) > n0:
                 return ctx.failures[n0]
             if time.time() - t0 > budget:
@@ -583,7 +907,7 @@ def search(ctx, broken, budget):
 
 def replay(ctx, rec):
     case = rec.get("failing", {}).get("case") or {}
-    if not all(k in case for k in ("nv", "nh", "na", "am", "ph")):
+    if not (all(k in case for k in ("nv", "nh", "na")) and (case.get("history") or all(k in case for k in ("am", "ph")))):
         print("replay record has no density-matrix case; running the generated cases")
         run(ctx)
         return
@@ -593,7 +917,7 @@ def replay(ctx, rec):
     if steps[-1].get("aux_seed") is None and "aux_seed" in case:
         steps[-1]["aux_seed"] = case["aux_seed"]
     steps = [{k: v for k, v in st.items() if not (k == "aux_seed" and v is None)} for st in steps]
-    print("replay of density matrix nv=%d nh=%d na=%d, %d parameter (re)writes: %s" % (nv, nh, na, len(steps), [st["way"] for st in steps]))
-    run_history(ctx, nv, nh, na, steps, big_steps=((len(steps) - 1,) if case.get("big") else ()))
+    print("replay of density matrix nv=%d nh=%d na=%d, history of %d parameter mutations on one object: %s" % (nv, nh, na, len(steps), [st["way"] for st in steps]))
+    run_history(ctx, nv, nh, na, steps, big_steps=((len(steps) - 1,) if case.get("big") else ()), ctor_seed=case.get("ctor_seed"))
     for f in ctx.failures[:5]:
         print("FAILS:", f["what"], f["detail"][:300])
